@@ -84,17 +84,25 @@ ASSUMPTIONS = [
     "neither is called), so generated coordinates only need to be distinct",
 ]
 BOUND = {
-    "quick": "all acyclic molecules of <= 3 heavy atoms, one seed-chosen "
-    "further exhaustive block (3-rings / aromatic 6-rings / Kekule rings / "
-    "substituted aromatics), all bundled MOL2 files; all permutations up to "
-    "6 atoms else rotations+reversal+adjacent transpositions; 3 naming "
-    "schemes; complexes: 32 hetero subsets x 3 ligand namings x 4 ligands, "
-    "AMBER (+ PARSE for the seed-chosen half)",
-    "thorough": "all molecules (acyclic and cyclic skeletons) of <= 4 heavy "
-    "atoms, all ring families (5-/6-membered saturated over "
-    "{C.3,N.3,O.3,S.3,N.4}, aromatic, Kekule, mono-substituted aromatic), "
-    "bundled files; complexes: 32 subsets x 3 namings x 6 ligands x "
-    "{AMBER, PARSE, CHARMM}",
+    "quick": "all acyclic molecules of <= 3 heavy atoms (1,095), one "
+    "seed-chosen further exhaustive block (all cyclic 3-heavy-atom "
+    "skeletons / aromatic 6-rings / Kekule 5- and 6-rings / mono-substituted "
+    "aromatic 6-rings), all 16 bundled MOL2 files; orders: all permutations "
+    "up to 6 atoms, else all rotations + reversal + all adjacent "
+    "transpositions (files of > 60 atoms: every 8th rotation and "
+    "transposition); naming: all 3 schemes on every order, except molecules "
+    "of exactly 6 atoms and files of > 60 atoms where all schemes run on "
+    "the identity order and one scheme per other order in rotation; "
+    "complexes: 32 hetero subsets x 3 ligand namings x 4 ligands under "
+    "AMBER, 2 ligands under PARSE for the seed-chosen half of the subsets",
+    "thorough": "all molecules on every connected skeleton (acyclic and "
+    "cyclic) of <= 4 heavy atoms (24,529), all ring families (5-/6-membered "
+    "saturated over {C.3,N.3,O.3,S.3,N.4}, aromatic, Kekule, "
+    "mono-substituted aromatic; 2,369), bundled files with the full order "
+    "alphabet; naming: full product for <= 3 heavy atoms, ring families and "
+    "files of <= 60 atoms, one scheme per non-identity order in rotation for "
+    "4-heavy-atom molecules and files of > 60 atoms; complexes: 32 subsets "
+    "x 3 namings x 6 ligands x {AMBER, PARSE, CHARMM}",
 }
 
 TOL = 1e-9
@@ -968,6 +976,22 @@ def check_molecule(spec, rec, only=None, chunk=(0, 1), stride=1,
             one_case(order, naming, bondmode))
         return "diff"
 
+    def order_check(order, naming, got):
+        """A reordered file written with another naming scheme than the
+        reference: decide whether names or order are responsible before
+        reporting (one extra evaluation, only on a mismatch)."""
+        if naming != base_naming and any(
+                abs(a - b) > TOL for a, b in zip(q0, got[0])) and \
+                not automorphic(mol, q0, got[0]):
+            ref = run(order, base_naming, "sorted")
+            if ref is not None and (
+                    all(abs(a - b) <= TOL for a, b in zip(q0, ref[0]))
+                    or automorphic(mol, q0, ref[0])):
+                _name_check(mol, rec, cls, ref, got, order, naming, "sorted",
+                            one_case)
+                return
+        compare(order, naming, "sorted", got, "order")
+
     if only is not None:
         order, naming, bondmode = only
         order = tuple(order)
@@ -982,7 +1006,7 @@ def check_molecule(spec, rec, only=None, chunk=(0, 1), stride=1,
         else:
             got = run(order, naming, "sorted")
             if got is not None:
-                compare(order, naming, "sorted", got, "order")
+                order_check(order, naming, got)
                 if naming != namings[0]:
                     first = run(order, namings[0], "sorted")
                     if first is not None:
@@ -1023,7 +1047,7 @@ def check_molecule(spec, rec, only=None, chunk=(0, 1), stride=1,
                 compare(order, naming, "sorted", got, "names")
             elif first is None:
                 first = got
-                compare(order, naming, "sorted", got, "order")
+                order_check(order, naming, got)
             else:
                 _name_check(mol, rec, cls, first, got, order, naming,
                             "sorted", one_case)
@@ -1265,7 +1289,8 @@ def check_complex_cell(case, rec):
                     dict(detail, atoms=items[:6],
                          run_outcome=("written" if r.ok else
                                       f"aborted:{r.exc[0]}"),
-                         pdb=text, mol2=mol2), one)
+                         pdb=text, mol2=mol2),
+                    dict(one, extras=_minimal_extras(extras, [kind])))
             if not r.ok:
                 cause = ("+".join(sorted(polluted)) if polluted
                          else "no-foreign-atom-touched")
@@ -1275,10 +1300,17 @@ def check_complex_cell(case, rec):
                     dict(detail, message=r.exc[1], touched=cause,
                          critical=[m for l, _n, m in r.warnings
                                    if l == "CRITICAL"][:3],
-                         pdb=text, mol2=mol2), one)
+                         pdb=text, mol2=mol2),
+                    dict(one, extras=_minimal_extras(extras,
+                                                     sorted(polluted)[:1])))
                 rec.event("complex:aborted")
                 continue
             rec.event("complex:completed")
+            listed = sum(1 for a in (r.missed or [])
+                         if a.res_name == "LIG" and a.res_seq == LIG_SEQ)
+            if listed:
+                rec.event("complex:written-ligand-atoms-also-listed-as-"
+                          "unassigned-in-header", listed)
             atoms = pqr_ref.parse(r.pqr_text)
             by_name = {}
             others = {}
@@ -1340,6 +1372,21 @@ def check_complex_cell(case, rec):
                       sum(len(v) for v in others.values()))
 
 
+def _minimal_extras(extras, kinds):
+    """Smallest hetero subset of this cell that still contains one group of
+    each touched kind (every single-group cell is enumerated as well, so the
+    reduced case is itself a member of the explored space)."""
+    pick = {"water": ("W1", "W3"), "foreign-hetero-group": ("XYZ", "XYQ"),
+            "ion": ("ZN",)}
+    out = []
+    for kind in kinds:
+        for e in pick.get(kind, ()):
+            if e in extras:
+                out.append(e)
+                break
+    return out if out else list(extras)
+
+
 def _feq(a, b):
     if a is None or b is None:
         return a is None and b is None
@@ -1377,7 +1424,8 @@ def _cost(desc, rotnames=None):
         hcount(t, [(l, desc["h"][j]) for l, j in inc[i]])
         for i, t in enumerate(desc["h"]))
     norders = math.factorial(n) if n <= FULL_PERM_LIMIT else 2 * n
-    k = 1 if (rotnames == "six" and n == FULL_PERM_LIMIT) else 3
+    k = 1 if (rotnames == "all" or (
+        rotnames == "six" and n == FULL_PERM_LIMIT)) else 3
     return k * norders * (1 + n / 8.0)
 
 
@@ -1440,7 +1488,7 @@ def enumerate_cases(tier, seed):
         for n in (1, 2, 3):
             descs += generic_molecules(n, True)
         cases += _bundle(descs, 6000.0)
-        cases += _bundle(generic_molecules(4, True), 6000.0, rotnames="six")
+        cases += _bundle(generic_molecules(4, True), 6000.0, rotnames="all")
         descs = []
         for fam in ("ar6", "kek6", "kek5", "ar6sub", "sat5", "sat6"):
             descs += ring_family(fam)
